@@ -147,14 +147,13 @@ MUTANTS = [
            "                if isinstance(node, Subroutine):\n                    node.register_in_parent_scope()\n",
            expect=('R2', 'Module.__setstate__:re-parents'), quick=True),
     Mutant('module-no-rescope', 'loki/module.py',
-           "        # Ensure that we are attaching all symbols to the newly create ``self``.\n        self.rescope_symbols()\n\n    def __contains__",
-           "\n    def __contains__", expect=('R2', 'Module.__setstate__:rescopes')),
+           "                if isinstance(node, Scope):\n                    node._reset_parent(self)\n\n        # Ensure that we are attaching all symbols to the newly create ``self``.\n        self.rescope_symbols()\n",
+           "                if isinstance(node, Scope):\n                    node._reset_parent(self)\n", expect=('R2', 'Module.__setstate__:rescopes')),
     Mutant('subroutine-drops-body', 'loki/subroutine.py', "        _ignore = ('_ast', '_parent')\n", "        _ignore = ('_ast', '_parent', 'body')\n",
            expect=('R3', 'Subroutine.__getstate__:drops')),
-    Mutant('symboltable-keeps-stale-parent', 'loki/types/symbol_table.py', "        self.__dict__.update(s)\n        self._parent = None\n",
+    Mutant('symboltable-keeps-stale-parent', 'loki/types/symbol_table.py', "        self.__dict__.update(s)\n\n        self._parent = None\n",
            "        self.__dict__.update(s)\n", expect=('R3', 'SymbolTable')),
-    Mutant('repair-subroutine-setstate', 'loki/subroutine.py',
-           "        for member in self.members:\n            self.symbol_attrs[member.name] = SymbolAttributes(ProcedureType(procedure=member))\n",
-           "        for member in self.members:\n            member._reset_parent(self)\n            self.symbol_attrs[member.name] = SymbolAttributes(ProcedureType(procedure=member))\n",
-           expect=None),
+    Mutant('subroutine-no-reparent', 'loki/subroutine.py', "            member._reset_parent(self)\n", "", expect=('R2', 'Subroutine.__setstate__:re-parents')),
+    Mutant('module-ast-not-restored', 'loki/module.py', "        self.__dict__.update(s)\n\n        self._ast = None\n", "        self.__dict__.update(s)\n", expect=('R1', 'Module._ast')),
+    Mutant('sourcefile-setstate-removed', 'loki/sourcefile.py', "    def __setstate__(self, s):\n        self.__dict__.update(s)\n\n        self._ast = None\n\n", "", expect=('R1', 'Sourcefile._ast')),
 ]
